@@ -380,6 +380,7 @@ def run(ctx):
         "runs_with_length_not_multiple_of_trading_tf": sum(
             1 for t in traces if t['hdr']['N'] % CR.TFMIN[t['hdr']['routes'][0].split(':')[1]] != 0),
         "runs_ending_in_exception": sum(1 for t in traces if t['hdr']['exc'] != 'none'),
+        "runaway_runs_aborted": sum(1 for t in traces if t['hdr']['exc'] == 'RunawayRun'),
         "timeframes_read_minutes": tfs_read, "runs_per_simulator_and_route_class": rclasses,
         "gapping_minutes_stored_raw_vs_normalised": {m: {"raw": g[0], "normalised": g[1]} for m, g in gaps.items()}, "rejected_clauses": {k: len(v) for k, v in seen.items()},
         "trace_events_checked_by_tlc": sum(r.generated for r in results), "samples": samples,
